@@ -41,6 +41,10 @@ type director struct {
 	hold     map[uint32]map[int]bool // round -> validator indices whose prevotes towards the victim are withheld
 	released bool
 	eager    bool // release as soon as the victim is locked and past its lock round
+	baitUntil uint32 // late-polka plan: the polka-helping Byzantine validators fall silent after this round of the height
+	scripted bool // a structured plan: the random faults keep quiet for this height so that the plan plays out
+	// holdOthers: round -> validator indices whose prevotes are withheld from every node BUT the victim
+	holdOthers map[uint32]map[int]bool
 	deadline time.Duration
 }
 
@@ -63,6 +67,19 @@ func (s *Sim) directed(m *Msg) bool {
 	case 1:
 		if m.Dst == d.victim && !d.released {
 			if hs := d.hold[m.Meta.R]; hs != nil && hs[m.Meta.I] {
+				return true
+			}
+		}
+		if m.Dst != d.victim && !d.released {
+			if hs := d.holdOthers[m.Meta.R]; hs != nil && hs[m.Meta.I] {
+				// a node always has its own vote
+				if m.Dst < len(s.nodes) && s.nodes[m.Dst] != nil {
+					if rs := rsOf(s.nodes[m.Dst]); rs.Validators != nil {
+						if idx, _ := rs.Validators.GetByAddress(s.nodes[m.Dst].Addr); int(idx) == m.Meta.I {
+							return false
+						}
+					}
+				}
 				return true
 			}
 		}
@@ -99,7 +116,15 @@ func (s *Sim) directorStep() {
 		} else if !d.released && vrs.Height == d.height {
 			// release the withheld prevotes once the victim has locked a block in a round
 			// after a withheld one and has moved on to a later round (tape-chosen moment)
-			locked := vrs.LockedBlock != nil && vrs.Round > vrs.LockedRound
+			// (and has left every round it was kept in the dark about: a polka that completes in the
+			// node's own round is the ordinary case, one that completes behind it is the rare one)
+			maxHeld := uint32(0)
+			for r, hs := range d.hold {
+				if len(hs) > 0 && r > maxHeld {
+					maxHeld = r
+				}
+			}
+			locked := vrs.LockedBlock != nil && vrs.Round > vrs.LockedRound && vrs.Round > maxHeld
 			if (locked && (d.eager || s.tape.Chance(1, 3))) || vrs.Round > d.rounds {
 				d.released = true
 				if locked {
@@ -121,8 +146,33 @@ func (s *Sim) directorStep() {
 	d.victim = live[s.tape.Draw(len(live))].ID
 	d.rounds = uint32(2 + s.tape.Draw(4))
 	desc := ""
-	if s.tape.Chance(1, 3) {
+	fam := s.tape.Draw(6)
+	for _, n := range live {
+		if s.heightOf(n)+1 < maxH {
+			fam = 5 // a scripted plan needs everybody at the start line; a laggard spoils the arithmetic
+		}
+	}
+	if fam == 3 || fam == 4 {
+		var pd, name string
+		if fam == 3 {
+			pd, name = s.starvePlan(d, live), "starve"
+		} else {
+			pd, name = s.latePolkaPlan(d, live), "late-polka"
+		}
+		if pd != "" {
+			d.scripted = true
+			d.deadline = s.now() + time.Duration(int(d.rounds+2)*6*s.cfg.TimeoutMs)*time.Millisecond
+			s.dir = d
+			s.res.Fault("director-height")
+			s.res.Fault("director-" + name + "-plan")
+			s.ah.Add("director", name)
+			s.trace("DIRECTOR h%d victim node %d:%s", d.height, d.victim, pd)
+			return
+		}
+	}
+	if fam <= 1 {
 		if pd := s.minorityLockPlan(d, live); pd != "" {
+			d.scripted = true
 			d.deadline = s.now() + time.Duration(int(d.rounds+2)*6*s.cfg.TimeoutMs)*time.Millisecond
 			s.dir = d
 			s.res.Fault("director-height")
@@ -259,4 +309,151 @@ func (s *Sim) minorityLockPlan(d *director, live []*kit.Node) string {
 	}
 	d.hold[1] = hold
 	return fmt.Sprintf(" minority-lock: r1 nobody, prevotes of validators %v withheld from the victim; r2 proposal only to nodes %d and %d", keysOf(hold), pr.v.ID, pr.p.ID)
+}
+
+// proposerOf returns, as far as it can be told before the height starts, who proposes in round r
+// (1-based) of the height after the most advanced node's: a live correct node, a Byzantine
+// validator, or neither (unknown).
+func (s *Sim) proposerOf(live []*kit.Node, r uint32) (*kit.Node, *Byz) {
+	var most *kit.Node
+	for _, n := range live {
+		if most == nil || s.heightOf(n) > s.heightOf(most) {
+			most = n
+		}
+	}
+	nv := most.CS.VerifState().NextValidators
+	if nv == nil {
+		return nil, nil
+	}
+	pa := nv.GetProposer().Address
+	if r > 1 {
+		pa = nv.CopyIncrementProposerPriority(int64(r) - 1).GetProposer().Address
+	}
+	for _, n := range live {
+		if n.Addr == pa {
+			return n, nil
+		}
+	}
+	for _, b := range s.byz {
+		if b.Addr == pa {
+			return nil, b
+		}
+	}
+	return nil, nil
+}
+
+// starvePlan: a round whose proposer is a Byzantine late-proposer; its proposal and parts reach
+// everybody but the victim, the others commit, the victim enters the commit step without the
+// block (and without a proposal), and the late-proposer sends it a second, different proposal.
+// Rounds before that one are for nobody (they fail quickly).
+func (s *Sim) starvePlan(d *director, live []*kit.Node) string {
+	for r := uint32(1); r <= 3; r++ {
+		_, b := s.proposerOf(live, r)
+		if b == nil || b.Strat != "late-proposer" {
+			continue
+		}
+		v := live[s.tape.Draw(len(live))]
+		d.victim = v.ID
+		d.rounds = r + 1
+		for q := uint32(1); q < r; q++ {
+			d.plans[q] = &roundPlan{kind: "nobody"}
+		}
+		all := map[int]bool{}
+		for _, n := range live {
+			if n.ID != v.ID {
+				all[n.ID] = true
+			}
+		}
+		d.plans[r] = &roundPlan{kind: "subset", allowed: all}
+		d.plans[r+1] = &roundPlan{kind: "open"}
+		return fmt.Sprintf(" starve: rounds before %d for nobody, round %d (Byzantine proposer %d) for everybody but the victim", r, r, b.ID)
+	}
+	return ""
+}
+
+// latePolkaPlan: round 1 goes to the victim and one partner only (as in the minority-lock plan,
+// but now in the first round, and the polka-helping Byzantine prevote is withheld from the
+// partner): the victim alone locks the first block. Round 2 is open: an unlocked proposer
+// proposes a second block, everybody else prevotes it, the others lock it - while the victim is
+// shown only its partner's prevote. The victim moves on to round 3 still locked on the first
+// block and only then receives the rest of the round-2 polka. A correct node unlocks on it (a
+// later polka for another value); one that does not stays apart from the others for ever.
+func (s *Sim) latePolkaPlan(d *director, live []*kit.Node) string {
+	var total, bait int64
+	for _, st := range s.cfg.Stakes {
+		total += st
+	}
+	baitAddr := map[string]bool{}
+	for _, b := range s.byz {
+		if b.Strat == "lock-bait" && b.ID < len(s.cfg.Stakes) {
+			bait += s.cfg.Stakes[b.ID]
+			baitAddr[string(b.Addr.Bytes())] = true
+		}
+	}
+	if bait == 0 || len(live) < 3 {
+		return ""
+	}
+	p1, b1 := s.proposerOf(live, 1)
+	p2, b2 := s.proposerOf(live, 2)
+	if (p1 == nil && (b1 == nil || b1.Strat != "lock-bait")) || (p2 == nil && (b2 == nil || b2.Strat != "lock-bait")) {
+		return ""
+	}
+	type pair struct{ v, p *kit.Node }
+	var pairs []pair
+	for _, v := range live {
+		for _, p := range live {
+			if v.ID == p.ID || v.ID >= len(s.cfg.Stakes) || p.ID >= len(s.cfg.Stakes) {
+				continue
+			}
+			if p1 != nil && p1.ID != v.ID && p1.ID != p.ID {
+				continue // a correct round-1 proposer votes for its own block: it has to be one of the two
+			}
+			if p2 != nil && p2.ID == v.ID {
+				continue // the locked victim would propose its locked block again
+			}
+			sum := s.cfg.Stakes[v.ID] + s.cfg.Stakes[p.ID]
+			if !quorumOK(sum, total) && quorumOK(sum+bait, total) && quorumOK(total-s.cfg.Stakes[v.ID], total) {
+				pairs = append(pairs, pair{v, p})
+			}
+		}
+	}
+	if len(pairs) == 0 {
+		return ""
+	}
+	pr := pairs[s.tape.Draw(len(pairs))]
+	rs := rsOf(pr.v)
+	if rs.Validators == nil {
+		return ""
+	}
+	d.victim = pr.v.ID
+	d.rounds = 4
+	d.eager = true
+	d.plans[1] = &roundPlan{kind: "subset", allowed: map[int]bool{pr.v.ID: true, pr.p.ID: true}}
+	for r := uint32(2); r <= 4; r++ {
+		d.plans[r] = &roundPlan{kind: "open"}
+	}
+	ho, h2 := map[int]bool{}, map[int]bool{}
+	for i, val := range rs.Validators.Validators {
+		if baitAddr[string(val.Address.Bytes())] {
+			ho[i] = true
+		}
+		if val.Address != pr.v.Addr && val.Address != pr.p.Addr {
+			h2[i] = true
+		}
+	}
+	d.holdOthers = map[uint32]map[int]bool{1: ho}
+	d.hold[2] = h2
+	d.baitUntil = 2 // afterwards the correct nodes are on their own: 2/3 of them have to agree
+	if s.baitSilent == nil {
+		s.baitSilent = map[uint64]uint32{}
+	}
+	s.baitSilent[d.height] = 2 // (for the rest of that height, also once the director has let go)
+	return fmt.Sprintf(" late-polka: r1 proposal only to nodes %d and %d, the helping prevotes of validators %v only to the victim; r2 prevotes of validators %v withheld from the victim until it has left round 2", pr.v.ID, pr.p.ID, keysOf(ho), keysOf(h2))
+}
+
+// calm: a scripted plan is playing for the height this message belongs to; random network
+// faults, class filters and partitions leave such messages alone.
+func (s *Sim) calm(m *Msg) bool {
+	d := s.dir
+	return d != nil && d.scripted && s.phase == 1 && (m.Meta.T == 0 || m.Meta.H == d.height)
 }
